@@ -288,10 +288,10 @@ EXTRA_TEXT = {
     "C18": " Also: the bit layout of every assembled octet equals RFC 4648's (C18.bits); process_tail is called once, after the loops (C18.split); an error returned by Decoder::push is recorded (C18.sticky); users of the Symbols iterator ask ok() (C18.symok). Also (round 12): encoder symbol bit layout equals RFC 4648 for every expression handed to the alphabet helper (C18.encbits); error values reaching any returned local of Decoder::push and its inlined helpers are recorded (C18.sticky). Also (round 15): every read of a 128-entry decode table is behind an index bound < 128 (C18.tabidx); the EndOfToken arm of a symbol converter changes no converter state (C18.eot).",
     "C19": " Also: the remainder handed back by the compressor's lookup is cut at a label boundary (C19.bound); hand-written parse functions refuse trailing octets (C19.whole); RevName writes its remainder label by label (C19.rev); a type compresses names only if its parser decompresses them (C19.cmpr); SizePrefixed siblings agree (C19.prefix); section counts rise only after a successful build (C19.rollback). Also (round 10): Name::cmp of the new codec decides by length only behind a label-structure fact (C19.lsuffix). Also (round 12): the record-data dispatcher decompresses what the builders compress (C19.dispatch); HeaderFlags setters clear exactly their field's RFC 1035 bits (C19.flags). Also (round 13): UnparsedName compares pointer and position in one frame (C19.hdr12). Also (round 15): the new codec's record ends exactly at position-behind-RDLENGTH + RDLENGTH (C19.rdend); SizePrefixed builders refuse only when the size field itself does not fit (C19.room).",
     "C20": " Also: failures are bounded by max_validity; nothing is served at the instant of expiry and every Some(..) is on the fresh side (C20.exp); DS in the authority section is stripped for DO=0 (C20.strip); flag arguments of Key::new match their parameters (C20.key); Answer only for the queried type and class (C20.cls); no unwrap on the next item of a section (C20.total). Also (round 12): setters store into, getters read, the field of their name (C20.cfg); a derived entry is not valid for longer than its source (C20.age); a stored Ok response that cannot be rebuilt yields None, not an error (C20.replay). Also (round 15): a derived copy is stored under the requested key, never the altered one (C20.ownkey); a key is built only behind opcode == QUERY and class == IN (C20.gate); every validity is returned behind the TTL scan of all three sections (C20.cap).",
-    "C12": " Also: DS digest input is canonical owner + canonical RDATA (C12.digest); RSA key length window is 1..=512 octets (C12.rsa); key tag reads all four fields and every key octet (C12.tag); canonical order == canonical form per field (C04.canon); every RFC 4034 6.2 type has a typed variant (C12.types, four known findings: AFSDB, RT, PX, KX). Also (round 11): SortedRecords adds a record only at a canonical binary-search index or sorts canonically before returning (C12.sorted); conversions keep every field (C05.conv). Also (round 14): signer's padding / DS digest context match the algorithm number (C12.algtab); length-first canonical order (C04.lenfirst).",
-    "C14": " Also: the memoised signature verdict does not read the clock, the validity period is tested in front of the cache (C14.cache); no panicking Duration/Instant arithmetic (C14.panic); the signer handed to create_child_node is never an intermediate node (C14.signer); the signer name decides the zone only if the owner ends with it (C14.target); both callers of the wildcard non-existence check exclude name == *.<ce> (C14.wild); every answer-section RRset's state enters the verdict (C14.every); 'no SOA' is bogus only after the chain of trust was consulted (C14.nosoa); nsec3_in_range strict (C14.range); every chain link's state folded (C14.chain). Also (rounds 10-11): a denial record is used only if its signer equals the expected signer (C14.nsigner); a positive wildcard verdict rests on the wildcard's closest encloser (C14.wildce); validity returned with a verified signature is capped by ttl_for_sig of that signature (C14.sigttl); split_at(n) behind n <= len of the same slice (C14.split); DS algorithm and digest type judged on the same record (C14.dsusable); no secure NSEC3 verdict after an opt-out closest-encloser proof (path-sensitive, C14.optout); no expect on LongRecordData / on an OPT record rebuilt with upstream options (C14.panic). Also (round 12): supported_algorithm equals what every crypto backend verifies (C14.algs); QTYPE ANY finds its answer (C14.qany). Also (round 14): failed-signature limits agree (C14.badsigs); every DNAME / CNAME step is counted (C14.loopcount); the wildcard is read from the verified RRSIG (C14.wildsig).",
+    "C12": " Also: DS digest input is canonical owner + canonical RDATA (C12.digest); RSA key length window is 1..=512 octets (C12.rsa); key tag reads all four fields and every key octet (C12.tag); canonical order == canonical form per field (C04.canon); every RFC 4034 6.2 type has a typed variant (C12.types, four known findings: AFSDB, RT, PX, KX). Also (round 11): SortedRecords adds a record only at a canonical binary-search index or sorts canonically before returning (C12.sorted); conversions keep every field (C05.conv). Also (round 14): signer's padding / DS digest context match the algorithm number (C12.algtab); length-first canonical order (C04.lenfirst). Also (round 18): character strings are sorted by length octet first (C04.charlen); validity periods are compared in serial arithmetic (C17.use).",
+    "C14": " Also: the memoised signature verdict does not read the clock, the validity period is tested in front of the cache (C14.cache); no panicking Duration/Instant arithmetic (C14.panic); the signer handed to create_child_node is never an intermediate node (C14.signer); the signer name decides the zone only if the owner ends with it (C14.target); both callers of the wildcard non-existence check exclude name == *.<ce> (C14.wild); every answer-section RRset's state enters the verdict (C14.every); 'no SOA' is bogus only after the chain of trust was consulted (C14.nosoa); nsec3_in_range strict (C14.range); every chain link's state folded (C14.chain). Also (rounds 10-11): a denial record is used only if its signer equals the expected signer (C14.nsigner); a positive wildcard verdict rests on the wildcard's closest encloser (C14.wildce); validity returned with a verified signature is capped by ttl_for_sig of that signature (C14.sigttl); split_at(n) behind n <= len of the same slice (C14.split); DS algorithm and digest type judged on the same record (C14.dsusable); no secure NSEC3 verdict after an opt-out closest-encloser proof (path-sensitive, C14.optout); no expect on LongRecordData / on an OPT record rebuilt with upstream options (C14.panic). Also (round 12): supported_algorithm equals what every crypto backend verifies (C14.algs); QTYPE ANY finds its answer (C14.qany). Also (round 14): failed-signature limits agree (C14.badsigs); every DNAME / CNAME step is counted (C14.loopcount); the wildcard is read from the verified RRSIG (C14.wildsig). Also (round 18): names enter the signed data through compose_canonical only (C14.sigcanon).",
     "C15": " Also: free-slot search sees the slot vacant (C15.slot); datagram receive loop waits against a per-attempt deadline (C15.dgdl); settable / applied timeout fields agree (C15.cfg); synthesized replies set QR (C15.synth); the stream timer restarts only for a matched message (C15.timer); check_stream compares the question (or sees it empty) in every state (typestate, C15.xfr); accepting a request never raises the timeout pending requests run under (C15.raise). Also (round 11): a new request does not restart a running response timer (C15.timer); synthesized replies carry the request's ID (C15.synth); the datagram transmission loop runs exactly max_retries + 1 times (linear form of the range, C15.budget). Also (round 13): the first message of a transfer has a question or is an error (path-sensitive, C15.xfr). Also (round 14): the datagram buffer is resized before every recv (C15.dgdl); replies already read are delivered before the reader's end is reported (C15.ans).",
-    "C17": " Also: the XFR interpreter's serial regression test is RFC 1982 '<' (C17.ixfr); Timestamp::scan reduces modulo 2^32 (C17.wrap). Also (round 11): no saturating / checked / plain addition on the raw value of a serial, new codec included (C17.use); the new codec's copy of to_system_time has the decision table of the established one (C17.port). Also (round 14): the new codec's Serial::inc wraps (C17.add).",
+    "C17": " Also: the XFR interpreter's serial regression test is RFC 1982 '<' (C17.ixfr); Timestamp::scan reduces modulo 2^32 (C17.wrap). Also (round 11): no saturating / checked / plain addition on the raw value of a serial, new codec included (C17.use); the new codec's copy of to_system_time has the decision table of the established one (C17.port). Also (round 14): the new codec's Serial::inc wraps (C17.add). Also (round 18): Serial::from(jiff::Timestamp) is as_second() reduced modulo 2^32 and nothing else (C17.fromts).",
     "C01": " Also: unreachable!() behind a repeated match is unreachable (path-sensitive, C01.rematch); lossy-UTF-8 loops end on error_len() == None (C01.lossy); Clone impls of the message iterators copy every field (C01.clone). Shared with other checks: ParsedName's compressed flag (C03.flag) and the alphabet-index bound of the base16/32/64 encoders used by Display (C18.enc). Also (round 10): bitmap window lengths accepted are exactly 3..=34 (C01.window); caps computed in an inlined helper are recognised (accumulator_of). Also (round 12): MessageIter ends after a failed section change (C01.fuse); compression pointers are built with exactly 14 possible bits (C01.ptrmask); len() - k behind len >= k (C01.lensub). Also (round 15): a loop that discards a section step leaves on count = Err (C01.handloop); DigPrinter reaches no further section step after an unparsable item (C01.printer); SVCB list parameters are a multiple of their iterator's item size (C01.hintelem).",
     "C02": " Also: label sequences are compared with a length-aware equality (C02.seqeq); the parser's compressed flag (C03.flag). Also: each backward section conversion reaches rewind() of every later section and each rewind zeroes its own count (C02.rewind); header fields written in place by a builder inside a push closure are restored when the push fails (C02.hdr); skip and parse accept the same names (C01.skip). Thorough tier additionally builds compile-fail witnesses for the section typestates. Also (round 13): the section trait's push is the builder's own (C02.secfwd); the OPT option iterator continues while any octet remains (C02.optiter). Also (round 16): both writers of a name-compressing record type emit the fields in one order (C02.brorder); OptRecord::as_record and ::from_record agree on every TTL bit (C02.optttl).",
     "C03": " Also: no subtraction in the builder can wrap, a started label has content, labels are appended atomically (C03.bld); in-place truncation only at label boundaries (C03.cut); both escape readers accept exactly the printable non-digits (C06.sym). Also: validated name types are built directly (struct literal) only inside an unsafe fn, from a validated value or behind a validator, and every *_unchecked constructor is an unsafe fn (C03.raw); the zone-file reader never continues past an empty label (C06.empty). Thorough tier additionally builds compile-fail witnesses (unsafe constructors, no mutable access to a name's octets). Also (round 10): the validator relied on before an unchecked wrap bounds the length (C03.forge). Also (round 13): one append per new label (C03.bld); finish / into_name / append_origin end the open label (C03.endl); a root label anywhere in a relative name is refused (C03.bounds). Also (round 16): append_name's per-label loop is counted as name.compose_len() and its guard must imply len + C <= 254 (C03.bld).",
@@ -301,7 +301,7 @@ EXTRA_TEXT = {
     "C11": " Also: Other Data is refused unless empty or a 6-octet time (C11.vars). Also: no unwrap of message-derived results in the TSIG module (C11.panic); CLASS/TTL of the TSIG record are checked because the digest feeds constants (C11.vars); Algorithm::from_name accepts exactly one label plus root, case-insensitively (C11.alg); the request MAC is fed into the context before any later use (C11.prime); Time48 wire layout (C11.time48). Also (round 13): other_time() depends on the length only (C11.other); `first` cleared only after MAC and time check succeeded (C11.first); first_answer replaces the context (C11.reset). Also (round 17): an answer's time is checked only behind a matching MAC (C11.macfirst); remove_tsig restores the ID in the message itself (C11.restoreid).",
     "C13": " Also: grouping iterators use the sort's notion of equal owners (C13.group); no iteration of the NSEC3 linking loop skips set_next_owner (C13.close). Also: every successful return of the generators has passed the step that closes / sorts-and-links the chain (C13.close); the empty-non-terminal walk has no early exit (C13.ent); the case folding of the name order (C04.fold). Also (round 13): NSEC3PARAM bit unconditional at the apex (C13.types); window / octet / bit of a type number by source-bit tracking (C13.split). Also (round 14): reading the remembered cut does not consume it (C13.cut). Also (round 17): the NSEC3 bitmap of a secure delegation has RRSIG, that of an insecure one has not (C13.dsrrsig).",
     "C16": " Also: 512 without EDNS and the carried-over OPT must fit (C16.size / C16.trunc); the idle-timeout guard is written (C16.idle); the read future is recreated only after delivering a request (C16.recv); cloned requests share the size hint (C16.hint); a response is never dropped for a full queue (C16.once, one known finding). Also: on the UDP arm every Continue return has stored the negotiated size (C16.size); error exits of a started stream write never flush the queue (C16.partial); the accept loop ends only for a failed server command (C16.accept). Also (round 13): the in-transaction guard is captured by the spawned task (C16.idle); the UDP size limit is loaded per datagram (C16.size); the connection count is raised where its decrement is armed (C16.accept). Also (round 17): the 512-octet limit is decided from the request's OPT (C16.reqopt).",
-    "C04": " Also: mixed-variant arms of the record-data enums never answer Equal (C04.mixed, two known findings on canonical_cmp). Also: hand-written comparisons of enums have a like-with-like arm for every variant (C04.refl); no panic macro in Eq/Ord/Hash/CanonicalOrd impls (C04.total); partial_cmp uses the comparators of cmp (C04.po); a hand-written == looks at every field (C04.ident); Label::composed_cmp does not fold case (C04.fold); nested name-bearing types in canonical_cmp (C04.canon). Also (rounds 10-11): a hand-written octet folder used by an Eq/Ord/Hash impl is evaluated over all 256 octets and must equal u8::to_ascii_lowercase (C04.fold, now covering CharStr); zip().all() never decides equality of label sequences (C02.seqeq); the new codec's flat Name orders by length only for a label-aligned suffix (C19.lsuffix). Also (round 14): length-prefixed fields are compared length first in canonical_cmp (C04.lenfirst).",
+    "C04": " Also: mixed-variant arms of the record-data enums never answer Equal (C04.mixed, two known findings on canonical_cmp). Also: hand-written comparisons of enums have a like-with-like arm for every variant (C04.refl); no panic macro in Eq/Ord/Hash/CanonicalOrd impls (C04.total); partial_cmp uses the comparators of cmp (C04.po); a hand-written == looks at every field (C04.ident); Label::composed_cmp does not fold case (C04.fold); nested name-bearing types in canonical_cmp (C04.canon). Also (rounds 10-11): a hand-written octet folder used by an Eq/Ord/Hash impl is evaluated over all 256 octets and must equal u8::to_ascii_lowercase (C04.fold, now covering CharStr); zip().all() never decides equality of label sequences (C02.seqeq); the new codec's flat Name orders by length only for a label-aligned suffix (C19.lsuffix). Also (round 14): length-prefixed fields are compared length first in canonical_cmp (C04.lenfirst). Also (round 18): CharStr::canonical_cmp orders by the length octet first (C04.charlen).",
     "C05": " Also: incremental builders bound what they append and roll back on failure (C05.push, one known finding); ClientSubnet host-bit guard equals the mask effect over all octets x prefix lengths (C05.mask); per-variant length of IpseckeyGateway (C05.varlen); unchecked-constructor audit of Nsec3Salt / OwnerHash / CaaTag (C05.forge). Also (rounds 10-11): the validator a *_unchecked wrap relies on bounds the length itself (C05.forge); every conversion between octets / name types maps field to same-named field (C05.conv); type-bitmap windows of exactly 1..=32 octets (C01.window); Time48 wire layout (C11.time48). Also (round 14): TxtBuilder's room is 256 + start - len (C05.txtroom); an option part's compose_len measures the field compose writes (C05.optlen); canonical lower-casing equals to_ascii_lowercase (C04.fold).",
     "C06": " Also: SvcParam values are written with the registered key mnemonic and the reader's key alphabet is a-z 0-9 '-' (C06.svckey, one known finding); Symbol::from_octet / quoted_from_octet leave unescaped only what the reader takes as plain (C06.sym); shares C03.esc (incl. directive openers), C07.cat/.paren and C18.tail. Also (round 10): the bitmap iterator tests every position it reaches (C06.bititer); Base16/32/64 alphabets (C18.tab). Also (round 14): both loops of convert_charstr admit 255 octets (C06.charstr255); integer readers overflow only beyond MAX (C07.ovf).",
     "C10": " Also: the IXFR diff funneler forwards every non-SOA item regardless of owner (C10.funnel); XFR message room subtracts the reserved bytes on both transports (C10.room); adding a record to an RRset does not duplicate it (C10.set). Also (rounds 10-11): walking, every non-cut node state descends into its children (C10.walk); a child's diff owner is its label in front of its parent's diff owner (C10.owner); serials compared in sequence space and without non-wrapping arithmetic (C17.ixfr, C17.use); 14-bit pointer bound in the compressors (C02.ptr14). Also (round 14): a record that did not fit is retried (C10.batch); both halves of an RRset's difference are recorded independently (C10.diffboth); DeleteAllRecords is decided after the transfer type was last assigned (C10.delall).",
